@@ -205,7 +205,7 @@ PROPS["C13"] = {
     "level": "exploration",
     "technique": "model-based stateful property testing (rapid) of group subscribes/cancels/ends + concurrent interval monitor under the race detector",
     "level_text": "sequences of group subscribes (2 groups, 3 consumer ids, epochs 0-4, on-cancel or finite), client cancellations (context first or Close first), natural ends and publishes on one partition of a bare server through the real partition.Subscribe; model: the last accepted subscriber holds the partition; an older epoch must be refused without disturbing the holder, an equal/newer one must succeed and cancel the holder; at every quiescent point at most one active subscription per group and the partition's registration names it",
-    "level_note": 'the harness does what api.Subscribe does around partition.Subscribe (cancel the stream context and Close the subscription when it returns); loop clean-up is asynchronous, so registry checks are retried and only a state persisting for 22 s is a violation; in a third of the replacements the harness delays that cancellation: the replaced subscription's caller keeps its context and keeps receiving while 24 more messages are committed - a cancelled loop may hand over a message it already holds (a coin toss per message), but not 24 in a row',
+    "level_note": 'the harness does what api.Subscribe does around partition.Subscribe (cancel the stream context and Close the subscription when it returns); loop clean-up is asynchronous, so registry checks are retried and only a state persisting for 22 s is a violation; in a third of the replacements the harness delays that cancellation: the caller of the replaced subscription keeps its context and keeps receiving while 24 more messages are committed - a cancelled loop may hand over a message it already holds (a coin toss per message), but not 24 in a row',
     "rule": 'rapid draws 2-20 steps. Non-trivial = a replacement by the same consumer id, a refused stale-epoch subscriber while a holder exists, or a natural end followed by a new subscriber.',
     "assumptions": TRUST,
     "units": [
